@@ -1055,7 +1055,7 @@ func litestream.(*VFSFile).pollLevel(f, ctx, level, prevMaxTXID, baseCommit) (rm
   loop 0 invariant !replaceIndex ==> (forall k int, p int :: {inIdx(item(itr, k), p)} c18_first <= k && k < c18_first + c18_n && inIdx(item(itr, k), p) ==> has(index, p))
   loop 1 invariant f == old(f) && f.client == old(f.client) && itr != nil && itOK(itr) && it_client[itr] == f.client && it_level[itr] == level && info == item(itr, it_idx[itr] - 1) && it_idx[itr] == c18_first + c18_n && c18_n >= 1
   loop 1 invariant index != nil && fresh(index) && idx != nil && idx != index && newCommit == hcommit(info) && (forall p int :: {has(index, p)} has(index, p) ==> p <= newCommit)
-  loop 1 invariant (forall p int :: {has(idx, p)} has(idx, p) <==> inIdx(info, p)) && (forall p int :: {visited(1)[p]} visited(1)[p] ==> has(index, p))
+  loop 1 invariant (forall p int :: {has(idx, p)} has(idx, p) <==> inIdx(info, p)) && (forall p int :: {visited(0)[p]} visited(0)[p] ==> has(index, p))
   loop 1 invariant (forall p int :: {inIdx(info, p)} inIdx(info, p) ==> has(idx, p))
   loop 1 invariant (forall p int :: {has(index, p)} has(index, p) ==> (exists k int :: {item(itr, k)} c18_first <= k && k < c18_first + c18_n && inIdx(item(itr, k), p)))
   loop 1 invariant !replaceIndex ==> (forall k int, p int :: {inIdx(item(itr, k), p)} c18_first <= k && k < c18_first + c18_n - 1 && inIdx(item(itr, k), p) ==> has(index, p))
